@@ -51,7 +51,7 @@ PROPS = {
     "C10": dict(jobs=lambda j: j.startswith("update:") or j == "avg" or j.startswith("units:") or (j.startswith("explainable:") and j.endswith((".__eq__", ".to", ".__lt__", ".__gt__"))), obl=lambda o: o["kind"] in ("post", "pre", "libpre", "units", "frame") and "cover" not in o["name"],
                 bounded="c10", level="proof", design="4 C12/C10",
                 technique="every contract is stated on physical (base-unit) values and proved with the unit conversion factor of every input left symbolic (> 0): unit independence by construction; bare-magnitude reads fail the proof unless preceded by .to(<literal unit>); equality / ordering / conversion operators compare and convert physical values (an edit to the same number in another unit is a change)"),
-    "C12": dict(jobs=lambda j: j.startswith("lemma:C12") or upd("update_instances_energy", "update_instances_fabrication_footprint", "update_energy_footprint", "update_devices_",
+    "C12": dict(jobs=lambda j: j.startswith("lemma:C12") or (j.startswith("explainable:") and j.endswith(".__eq__")) or upd("update_instances_energy", "update_instances_fabrication_footprint", "update_energy_footprint", "update_devices_",
                          "Network", "update_hour_by_hour", "update_nb_usage_journeys")(j), obl=ALL_OBL, bounded="c12", level="proof", design="4 C12/C10",
                 technique="homogeneity lemmas over the functional specifications the update rules are proved equal to (z3), plus the proofs of those equalities"),
     "C18": dict(jobs=lambda j: j.startswith("update:"), obl=kinds("frame", "order"), bounded="c18", level="other", design="4 C18",
@@ -78,7 +78,7 @@ PROPS["C05"] = dict(jobs=lambda j: j.startswith("effects:") or j.startswith("gra
 PROPS["C06"] = dict(jobs=lambda j: j.startswith("effects:"), obl=lambda o: "C06" in o["name"] or "effect profile" in o["name"], bounded="c06", level="other", design="4 C05/C06",
                     technique="P (statement-level facts of ModelingUpdate.__init__ only): the date is stored unchanged, a naive date is refused before any model write; bounded stand-in: first-hour simulation vs really applying the changes on a twin system; no simulated hour before the date; twins paired both ways; bad dates refused")
 
-PROPS["C08"] = dict(jobs=ANY, obl=lambda o: any(x in o["name"] for x in ("recorded ancestors", "_parent recorded", "completeness")) or "optimize_attr_updates_chain" in o["function"] or (o["function"].split(" ")[0].endswith(("add_child_to_direct_children_with_id", "remove_child_from_direct_children_with_id", "ExplainableObject.set_modeling_obj_container", "return_direct_ancestors_with_id_to_child", "ExplainableObject.__init__")) and o["kind"] != "cover"), bounded="c08", level="other", design="4 C08",
+PROPS["C08"] = dict(jobs=ANY, obl=lambda o: o["kind"] == "order" or any(x in o["name"] for x in ("recorded ancestors", "_parent recorded", "completeness")) or "optimize_attr_updates_chain" in o["function"] or (o["function"].split(" ")[0].endswith(("add_child_to_direct_children_with_id", "remove_child_from_direct_children_with_id", "ExplainableObject.set_modeling_obj_container", "return_direct_ancestors_with_id_to_child", "ExplainableObject.__init__")) and o["kind"] != "cover"), bounded="c08", level="other", design="4 C08",
                     technique="P: every operator / helper contract pins the parents recorded on its result and the recorded-ancestor set (what the dependency edges are built from); the graph layer itself (add_child / remove_child refine set insertion / removal on a duplicate-free id list; set_modeling_obj_container, checked against those contracts over a ghost heap, leaves both ends of every edge in agreement; return_direct_ancestors_with_id_to_child and the ancestor collection of ExplainableObject.__init__: recorded ancestor ids = union of what the parents hand down, each once); B: graph consistency (both ends, held values only, acyclic) as built / after edits / after simulations and toggles; completeness by perturbing every quantity input and rebuilding; update order of every input")
 
 PROPS["C11"] = dict(jobs=None, obl=None, bounded="c11", level="other", design="4 C11",
